@@ -323,6 +323,73 @@ theorem applySets_frame (ws : List (List Key × J)) (ks : List Key) (j j' : J) (
       exact getPath_setPath_frame ks' ks v j j1 h1 (hd (ks', v) (List.mem_cons_self))
     · cases h
 
+/-! ### handles into a document (paths of keys and positions) -/
+
+theorem resolve_keys (ks : List Key) (j : J) : resolve (ks.map .key) j = getPath ks j := by
+  induction ks generalizing j with
+  | nil => rfl
+  | cons k ks ih =>
+    cases j <;> simp only [List.map_cons, resolve, getPath]
+    rename_i kv
+    cases lookup k kv with
+    | none => rfl
+    | some c => simp only [Option.bind]; exact ih c
+
+theorem resolve_append (p q : List Step) (j : J) : resolve (p ++ q) j = (resolve p j).bind (resolve q) := by
+  induction p generalizing j with
+  | nil => simp [resolve]
+  | cons s p ih =>
+    cases s with
+    | key k =>
+      cases j <;> simp only [List.cons_append, resolve, Option.bind]
+      rename_i kv
+      cases lookup k kv with
+      | none => rfl
+      | some c => simp only; exact ih c
+    | idx n =>
+      cases j <;> simp only [List.cons_append, resolve, Option.bind]
+      rename_i a
+      cases a[n]? with
+      | none => rfl
+      | some c => simp only; exact ih c
+
+/-- replacing the node a handle designates: the handle then designates the new node -/
+theorem resolve_modifyAt (p : List Step) (f : J → J) (j j' : J) (h : modifyAt p f j = some j') :
+    resolve p j' = (resolve p j).map f := by
+  induction p generalizing j j' with
+  | nil => simp only [modifyAt] at h; cases h; rfl
+  | cons s p ih =>
+    cases s with
+    | key k =>
+      cases j <;> simp only [modifyAt] at h <;> try (cases h)
+      rename_i kv
+      split at h
+      · rename_i c hc
+        cases hm : modifyAt p f c with
+        | none => simp [hm] at h
+        | some c' =>
+          simp only [hm, Option.map] at h
+          cases h
+          simp only [resolve, lookup_upsert_same, hc, Option.bind]
+          exact ih c c' hm
+      · cases h
+    | idx n =>
+      cases j <;> simp only [modifyAt] at h <;> try (cases h)
+      rename_i a
+      split at h
+      · rename_i c hc
+        cases hm : modifyAt p f c with
+        | none => simp [hm] at h
+        | some c' =>
+          simp only [hm, Option.map] at h
+          cases h
+          have hn : n < a.length := by
+            rcases Nat.lt_or_ge n a.length with h1 | h1
+            · exact h1
+            · rw [List.getElem?_eq_none h1] at hc; cases hc
+          simp only [resolve, hc, Option.bind, List.getElem?_set_self hn]
+          exact ih c c' hm
+      · cases h
 /-! ### json arrays -/
 
 theorem growTo_get (a : List J) (n i : Nat) (h : i < a.length) : (growTo a n)[i]? = a[i]? := by
